@@ -61,6 +61,8 @@ def main():
         for pid in ids:
             t0 = time.time()
             p = subprocess.run([os.path.join(HERE, "check"), pid, "--tier", tier, "--seed", seed], capture_output=True, text=True, env=env)
+            if p.returncode not in (0, 1) or (p.returncode == 1 and "VIOLATION" not in p.stdout):
+                print("   stderr tail: " + p.stderr[-600:].replace("\n", "\n   "))
             viol = [l for l in p.stdout.splitlines() if l.startswith("VIOLATION")]
             verdict = "DETECTED" if (p.returncode == 1 and viol) else ("missed" if p.returncode == 0 else "inconclusive(rc=%s)" % p.returncode)
             sigs = []
